@@ -322,6 +322,243 @@ func seqGen(r *common.Rand, malformed bool) []string {
 		strings.Join(evs, ","), table(extra, strs...)}
 }
 
+// ---------------------------------------------------------------------------
+// interrupted typing: the characters of an abbreviation (and its trigger) typed
+// with other events in between. The documentation of edit:abbr says an
+// abbreviation expands only when "typed in full and consecutively, without
+// being interrupted by the use of other editing functionalities, such as cursor
+// movements"; the code implements that with the inserts/lastCodeBuffer
+// bookkeeping, and expand*Abbr cut the buffer relative to the dot on the
+// strength of it.
+
+type seqB struct {
+	q       bool
+	S, C, W []pair
+	buf     string
+	dot     int
+	evs     []string
+	extra   []rune
+	strs    []string
+}
+
+func (b *seqB) key(k rune, mod int) {
+	b.evs = append(b.evs, fmt.Sprintf("k%d.%d", k, mod))
+	if k >= 0 {
+		b.extra = append(b.extra, k)
+	}
+}
+
+func (b *seqB) typ(s string) {
+	for _, c := range s {
+		b.key(c, 0)
+	}
+}
+
+func (b *seqB) cmd(name string) { b.evs = append(b.evs, "c"+name) }
+
+// paste: a complete bracketed paste of text (valid UTF-8, graphic or not).
+func (b *seqB) paste(text string) {
+	b.evs = append(b.evs, "p1")
+	b.typ(text)
+	quoted := parse.Quote(text)
+	b.evs = append(b.evs, "p0."+common.Hex(text)+"."+common.Hex(quoted))
+	b.strs = append(b.strs, text, quoted)
+}
+
+func (b *seqB) line() []string {
+	evs := b.evs
+	if len(evs) == 0 {
+		evs = []string{"-"}
+	}
+	strs := append([]string{}, b.strs...)
+	for _, ps := range [][]pair{b.S, b.C, b.W} {
+		for _, p := range ps {
+			strs = append(strs, p.a, p.f)
+		}
+	}
+	strs = append(strs, b.buf)
+	qs := "0"
+	if b.q {
+		qs = "1"
+	}
+	return []string{"seq", qs, encPairs(b.S), encPairs(b.C), encPairs(b.W), common.Hex(b.buf), strconv.Itoa(b.dot),
+		strings.Join(evs, ","), table(b.extra, strs...)}
+}
+
+// an interruption: a short list of events that are not plain typing.
+type interruption func(b *seqB)
+
+var moverNames = func() []string {
+	var ms []string
+	for _, n := range names {
+		if strings.HasPrefix(n, "move-dot-") {
+			ms = append(ms, n)
+		}
+	}
+	return ms
+}()
+
+func cmds(ns ...string) interruption {
+	return func(b *seqB) {
+		for _, n := range ns {
+			b.cmd(n)
+		}
+	}
+}
+
+// the fixed interruptions of the enumerated part: every builtin alone, pairs of
+// movers that come back (or go to the other end), an (empty) paste, keys that
+// are not inserted.
+var fixedInterruptions = func() []interruption {
+	var is []interruption
+	for _, n := range names {
+		is = append(is, cmds(n))
+	}
+	for _, p := range [][]string{
+		{"move-dot-left", "move-dot-right"}, {"move-dot-left", "move-dot-eol"}, {"move-dot-sol", "move-dot-eol"},
+		{"move-dot-left", "move-dot-left"}, {"move-dot-left-word", "move-dot-right-word"}, {"move-dot-up", "move-dot-down"},
+		{"move-dot-up", "move-dot-eol"}, {"move-dot-left", "kill-rune-right"}, {"kill-rune-left", "move-dot-eol"},
+		{"move-dot-sol", "kill-line-right"}, {"transpose-rune", "transpose-rune"}, {"move-dot-left", "transpose-rune"},
+	} {
+		is = append(is, cmds(p...))
+	}
+	is = append(is,
+		func(b *seqB) { b.paste("") },
+		func(b *seqB) { b.paste("q") },
+		func(b *seqB) { b.cmd("kill-rune-left"); b.paste("q") },
+		func(b *seqB) { b.cmd("kill-rune-left"); b.paste("é") },
+		func(b *seqB) { b.key(ui.F1, 0) },
+		func(b *seqB) { b.key(ui.Left, 0) },
+		func(b *seqB) { b.key('a', int(ui.Alt)) },
+		func(b *seqB) { b.key(1, 0) },
+		func(b *seqB) { b.key(ui.Backspace, 0) },
+	)
+	return is
+}()
+
+type abbrCase struct {
+	kind    byte // 'S', 'C', 'W'
+	p       pair
+	trigger string // typed after the abbreviation ("" for simple ones)
+}
+
+var interruptedCases = []abbrCase{
+	{'S', pair{"||", " or "}, ""}, {'S', pair{"ab", "世界"}, ""}, {'S', pair{"xab", "LONG"}, ""}, {'S', pair{"世界", "w"}, ""},
+	{'S', pair{"éé", "e"}, ""}, {'S', pair{"xx", ""}, ""},
+	{'W', pair{"gc", "git commit"}, " "}, {'W', pair{"h", "hello"}, "-"}, {'W', pair{"世", "world"}, " "}, {'W', pair{"--", "–"}, "a"},
+	{'C', pair{"ll", "ls -l"}, " "}, {'C', pair{"é", "echo"}, "\t"},
+}
+
+var interruptedContexts = []struct {
+	buf string
+	dot int
+}{{"", 0}, {"é", 2}, {"x世", 4}, {"a b", 1}, {"é\n", 3}, {"|", 0}, {"b世", 1}}
+
+func (c abbrCase) builder(buf string, dot int) *seqB {
+	b := &seqB{buf: buf, dot: dot}
+	switch c.kind {
+	case 'S':
+		b.S = []pair{c.p}
+	case 'C':
+		b.C = []pair{c.p}
+	case 'W':
+		b.W = []pair{c.p}
+	}
+	return b
+}
+
+// genInterrupted enumerates: abbreviation × split point × interruption × initial
+// buffer/dot (× optionally going to the end of the line before the trigger).
+func genInterrupted(emit func(...string)) {
+	for _, c := range interruptedCases {
+		text := []rune(c.p.a + c.trigger)
+		for split := 1; split < len(text); split++ {
+			for _, in := range fixedInterruptions {
+				for _, ctx := range interruptedContexts {
+					b := c.builder(ctx.buf, ctx.dot)
+					b.typ(string(text[:split]))
+					in(b)
+					b.typ(string(text[split:]))
+					emit(b.line()...)
+					if c.trigger != "" && split < len(text)-1 {
+						// the same, but back at the end of the buffer for the trigger
+						b := c.builder(ctx.buf, ctx.dot)
+						b.typ(string(text[:split]))
+						in(b)
+						b.typ(string(text[split : len(text)-1]))
+						b.cmd("move-dot-eol")
+						b.typ(c.trigger)
+						emit(b.line()...)
+					}
+				}
+			}
+		}
+	}
+}
+
+func randInterruption(r *common.Rand) interruption {
+	switch c := r.Intn(20); {
+	case c < 11:
+		return cmds(common.Pick(r, moverNames))
+	case c < 13:
+		return cmds(common.Pick(r, moverNames), common.Pick(r, moverNames))
+	case c < 16:
+		return cmds(common.Pick(r, names))
+	case c == 16:
+		t := ""
+		if r.Bool() {
+			t = randBuf(r, 1)
+		}
+		return func(b *seqB) { b.paste(t) }
+	case c == 17:
+		k := common.Pick(r, []rune{ui.Left, ui.F1, ui.Up, 1, 27, 0xad})
+		return func(b *seqB) { b.key(k, 0) }
+	case c == 18:
+		return func(b *seqB) { b.key(ui.Backspace, 0) }
+	}
+	return common.Pick(r, fixedInterruptions)
+}
+
+// interruptGen: a random configuration and buffer; the text of configured
+// abbreviations (with a trigger) typed in pieces with interruptions in between.
+func interruptGen(r *common.Rand) []string {
+	b := &seqB{q: r.Chance(1, 4)}
+	b.S = pickPairs(r, simplePool, false)
+	b.C = pickPairs(r, commandPool, false)
+	b.W = pickPairs(r, smallWordPool, false)
+	if len(b.S)+len(b.W) == 0 {
+		b.S = []pair{common.Pick(r, simplePool)}
+	}
+	if r.Chance(2, 3) {
+		b.buf = randBuf(r, 3)
+	}
+	b.dot = len(b.buf)
+	if r.Chance(1, 2) {
+		b.dot = common.Pick(r, boundaries(b.buf))
+	}
+	abbrs := append(append(append([]pair{}, b.S...), b.C...), b.W...)
+	triggers := []string{" ", " ", "-", "\t", "a", "é", "|", ";", "世"}
+	for n := r.Range(1, 4); n > 0; n-- {
+		a := common.Pick(r, abbrs).a
+		if r.Chance(1, 8) {
+			b.typ(common.Pick(r, triggers))
+		}
+		text := []rune(a + common.Pick(r, triggers))
+		for i, c := range text {
+			if i > 0 && r.Chance(1, 2) {
+				for k := r.Range(1, 2); k > 0; k-- {
+					randInterruption(r)(b)
+				}
+			}
+			b.key(c, 0)
+		}
+		if r.Chance(1, 4) {
+			randInterruption(r)(b)
+		}
+	}
+	return b.line()
+}
+
 func gen(c *common.Ctx, emit func(...string)) {
 	// 1. exhaustive: all buffers of ≤depth symbols × all boundary dots × every command
 	depth := c.Scale(4, 6)
@@ -360,6 +597,12 @@ func gen(c *common.Ctx, emit func(...string)) {
 	for i := c.Scale(1000, 20000); i > 0; i-- {
 		emit(seqGen(c.Rand, true)...)
 	}
+	// 5. abbreviations typed with interruptions (cursor moves, edits, pastes,
+	//    function keys) between their characters: enumerated, then random
+	genInterrupted(emit)
+	for i := c.Scale(3000, 80000); i > 0; i-- {
+		emit(interruptGen(c.Rand)...)
+	}
 }
 
 // ---------------------------------------------------------------------------
@@ -394,6 +637,32 @@ type event struct {
 	mod         int
 	name        string
 	raw, quoted string
+}
+
+func (e event) String() string {
+	switch e.kind {
+	case 'k':
+		if e.mod == 0 && e.r >= 0 {
+			return fmt.Sprintf("key %q", e.r)
+		}
+		return "key " + ui.Key{Rune: e.r, Mod: ui.Mod(e.mod)}.String()
+	case 'P':
+		return "paste-start"
+	case 'p':
+		return fmt.Sprintf("paste-end(%q)", e.raw)
+	case 'c':
+		return "builtin " + e.name
+	}
+	return "?"
+}
+
+// history: the events before event #i, for failure details.
+func history(evs []event, i int) string {
+	var xs []string
+	for _, e := range evs[:i] {
+		xs = append(xs, e.String())
+	}
+	return "[" + strings.Join(xs, ", ") + "]"
 }
 
 func decEvents(s string) []event {
@@ -768,37 +1037,65 @@ func parseTrace(out string) (snaps []snap, crashed bool) {
 	return snaps, false
 }
 
+// explanation of what a graphic key did: plain insertion, or the plain insertion
+// with one configured abbreviation replaced by its expansion. typed is the text
+// that must have been typed consecutively for the expansion to be legitimate
+// ("" = no such requirement: plain insertion; command abbreviations are
+// recognised from the buffer text, not from what was typed).
+type explanation struct {
+	how   string
+	typed string
+}
+
 // explainKey: after a graphic key, the buffer must be the plain insertion, or
 // the plain insertion with exactly one configured abbreviation (ending at the
-// dot / just before the typed rune) replaced by its expansion.
-func explainKey(op seqOp, pre snap, r rune, post snap) string {
+// dot / just before the typed rune) replaced by its expansion. All candidate
+// explanations are returned.
+func explainKey(op seqOp, pre snap, r rune, post snap) []explanation {
+	var xs []explanation
 	s := string(r)
 	plain := pre.content[:pre.dot] + s + pre.content[pre.dot:]
 	pd := pre.dot + len(s)
 	if post.content == plain && post.dot == pd {
-		return "plain"
+		xs = append(xs, explanation{"plain", ""})
 	}
 	for _, p := range op.S {
 		if p.a != "" && strings.HasSuffix(plain[:pd], p.a) &&
 			post.content == plain[:pd-len(p.a)]+p.f+plain[pd:] && post.dot == pd-len(p.a)+len(p.f) {
-			return "simple-abbr"
+			xs = append(xs, explanation{"simple-abbr", p.a})
 		}
 	}
 	if pd == len(plain) {
 		for _, p := range op.C {
 			if p.a != "" && p.f != "" && strings.HasSuffix(plain, p.a+s) &&
 				post.content == plain[:len(plain)-len(p.a)-len(s)]+p.f+s && post.dot == len(post.content) {
-				return "command-abbr"
+				xs = append(xs, explanation{"command-abbr", ""})
 			}
 		}
 		for _, p := range op.W {
 			if p.a != "" && strings.HasSuffix(plain, p.a+s) &&
 				post.content == plain[:len(plain)-len(p.a)-len(s)]+p.f+s && post.dot == len(post.content) {
-				return "small-word-abbr"
+				xs = append(xs, explanation{"small-word-abbr", p.a + s})
 			}
 		}
 	}
-	return ""
+	return xs
+}
+
+// completesAbbr: would typed (ending with the rune s just typed) make a simple
+// or small-word abbreviation of op fire, as far as the typed text is concerned?
+func completesAbbr(op seqOp, typed, s string) bool {
+	for _, p := range op.S {
+		if p.a != "" && strings.HasSuffix(typed, p.a) {
+			return true
+		}
+	}
+	for _, p := range op.W {
+		if p.a != "" && strings.HasSuffix(typed, p.a+s) {
+			return true
+		}
+	}
+	return false
 }
 
 func seqInQuantifier(op seqOp) bool {
@@ -821,15 +1118,27 @@ func walkSeq(op seqOp, out string, visit func(string)) (string, string) {
 	snaps, crashed := parseTrace(out)
 	cur := snap{true, op.buf, op.dot}
 	pasting, pasted := false, ""
+	// The oracle's own account of "typed consecutively" (edit:abbr: "typed in
+	// full and consecutively, without being interrupted by the use of other
+	// editing functionalities, such as cursor movements"): run is the text
+	// inserted by the latest graphic keys such that each found the buffer
+	// (content and dot) exactly as the previous one had left it. This is the most
+	// generous reading (events in between that restore the buffer do not count
+	// as an interruption), so "an abbreviation fired ⇒ it is a suffix of run"
+	// is a necessary condition only. stale is what was typed by graphic keys
+	// since the last event that is not a buffer command, whatever the buffer
+	// looked like — used for the tag histogram only.
+	run, stale := "", ""
+	after, haveRun, lastKey := snap{}, false, -1
 	for i, e := range op.evs {
 		if i >= len(snaps) {
 			if crashed {
-				return "codearea-crash", fmt.Sprintf("event #%d %+v on %q dot=%d", i, e, cur.content, cur.dot)
+				return "codearea-crash", fmt.Sprintf("event #%d (%v) on %q dot=%d panics; start %q dot=%d, earlier events %s", i, e, cur.content, cur.dot, op.buf, op.dot, history(op.evs, i))
 			}
 			return "codearea-short-trace", ""
 		}
 		post := snaps[i]
-		where := fmt.Sprintf("event #%d %+v on %q dot=%d gives %q dot=%d", i, e, cur.content, cur.dot, post.content, post.dot)
+		where := fmt.Sprintf("event #%d (%v) on %q dot=%d gives %q dot=%d; start %q dot=%d, earlier events %s", i, e, cur.content, cur.dot, post.content, post.dot, op.buf, op.dot, history(op.evs, i))
 		if !utf8.ValidString(post.content) {
 			return "codearea-invalid-utf8", where
 		}
@@ -839,7 +1148,7 @@ func walkSeq(op seqOp, out string, visit func(string)) (string, string) {
 		unchanged := post.content == cur.content && post.dot == cur.dot
 		switch e.kind {
 		case 'P':
-			pasting = true
+			pasting, stale = true, ""
 			if !unchanged {
 				return "paste-start-edits", where
 			}
@@ -855,7 +1164,7 @@ func walkSeq(op seqOp, out string, visit func(string)) (string, string) {
 			if post.content != cur.content[:cur.dot]+text+cur.content[cur.dot:] || post.dot != cur.dot+len(text) {
 				return "paste-not-exact", where + fmt.Sprintf(" (pasted %q)", pasted)
 			}
-			pasting, pasted = false, ""
+			pasting, pasted, stale = false, "", ""
 		case 'c':
 			visit("builtin")
 			if cls, d := checkBuiltin(e.name, cur.content, cur.dot, "", post.content, post.dot); cls != "" {
@@ -879,6 +1188,7 @@ func walkSeq(op seqOp, out string, visit func(string)) (string, string) {
 				if post.content != cur.content[:cur.dot-n]+cur.content[cur.dot:] || post.dot != cur.dot-n {
 					return "backspace-not-exact", where
 				}
+				stale = ""
 				if n == 0 {
 					visit("backspace-at-start")
 				} else {
@@ -888,13 +1198,41 @@ func walkSeq(op seqOp, out string, visit func(string)) (string, string) {
 				if !unchanged {
 					return "non-inserting-key-edits", where
 				}
+				stale = ""
 				visit("non-inserting-key")
 			default:
-				how := explainKey(op, cur, e.r, post)
-				if how == "" {
+				s := string(e.r)
+				contiguous := haveRun && cur.content == after.content && cur.dot == after.dot
+				if !contiguous {
+					run = ""
+				} else if lastKey != i-1 {
+					visit("key-run-resumed")
+				}
+				typed := run + s
+				if !contiguous && !completesAbbr(op, typed, s) && completesAbbr(op, stale+s, s) {
+					visit("abbr-across-interruption")
+				}
+				xs := explainKey(op, cur, e.r, post)
+				if len(xs) == 0 {
 					return "key-insert-not-exact", where
 				}
+				how := ""
+				for _, x := range xs {
+					if strings.HasSuffix(typed, x.typed) {
+						how = x.how
+						break
+					}
+				}
+				if how == "" {
+					return "abbr-fired-not-typed-consecutively", where + fmt.Sprintf(" (%s of %q, but only %q was typed consecutively)", xs[0].how, xs[0].typed, typed)
+				}
 				visit("key-" + how)
+				if how == "plain" {
+					run, stale = typed, stale+s
+					after, haveRun, lastKey = post, true, i
+				} else {
+					run, stale, haveRun = "", "", false
+				}
 			}
 		}
 		cur = post
@@ -978,7 +1316,7 @@ func kind(name string) string {
 	return name[:strings.IndexByte(name, '-')]
 }
 
-var rank = []string{"key-small-word-abbr", "key-command-abbr", "key-simple-abbr", "paste-quoted", "paste-verbatim",
+var rank = []string{"abbr-across-interruption", "key-small-word-abbr", "key-command-abbr", "key-simple-abbr", "key-run-resumed", "paste-quoted", "paste-verbatim",
 	"funckey-in-paste", "backspace-at-start", "backspace", "non-inserting-key", "builtin", "key-in-paste", "paste-start", "key-plain"}
 
 func tag(f []string, out string) string {
@@ -1020,6 +1358,7 @@ func run(c *common.Ctx) error {
 		Rule: fmt.Sprintf("ball: every buffer of ≤%d symbols over {a, é, 世, U+0301, space, \\n, -, 1} × every boundary dot × all 26 builtins (one op per buffer); "+
 			"b: random buffers (letters, digits, punctuation, wide, combining, NBSP/ideographic space, newlines) × random boundary dot × random builtin, plus a malformed stream (invalid UTF-8, dots off boundary / out of range); "+
 			"seq: random key/paste/builtin event sequences on a headless tk.CodeArea with simple/command/small-word abbreviations and QuotePaste configured (plus malformed configurations); "+
+			"seq (interrupted typing): 12 abbreviations × every split point × 47 interruptions (each builtin, mover pairs, pastes, non-inserting keys) × 7 buffers, plus random ones; "+
 			"non-trivial = everything but the empty buffer; distinct by op line", depth),
 		ExhaustiveNote: fmt.Sprintf("buffers ≤%d symbols over an 8-symbol alphabet × all boundary dots × all 26 builtins", depth),
 		Gen:            gen,
